@@ -2,8 +2,10 @@
 """copies confirmed seeded changes from /tmp/seed_out into /verif/seeded/<id>/ with meta.json"""
 import json, os, re, shutil, sys
 OUT = "/verif/seeded"
-for name in sorted(os.listdir("/tmp/seed_out")):
-    src = os.path.join("/tmp/seed_out", name)
+SRC = sys.argv[1] if len(sys.argv) > 1 else "/tmp/seed_out"
+BASE = sys.argv[2] if len(sys.argv) > 2 else open(os.path.join(OUT, "BASE_COMMIT")).read().strip()
+for name in sorted(os.listdir(SRC)):
+    src = os.path.join(SRC, name)
     resf = "/tmp/confirm_%s.result" % name
     if not os.path.exists(resf):
         continue
